@@ -40,7 +40,7 @@ Step(e) ==
          [kv |-> kv, roots |-> roots, f |-> Flag(e.ok /\ OwnersOK(kv, e.total, e.owners) /\ e.rootOK, "finalroot")]
     [] OTHER -> [kv |-> kv, roots |-> roots, f |-> {"unknown-op"}]
 
-TraceInit == /\ kv = EmptyKV /\ dur = EmptyKV /\ ck = EmptyKV /\ st = [clean |-> TRUE, saved |-> FALSE, commits |-> 0, gcs |-> 0]
+TraceInit == /\ kv = EmptyKV /\ dur = EmptyKV /\ ck = EmptyKV /\ st = [clean |-> TRUE, saved |-> FALSE, mark |-> FALSE, commits |-> 0, gcs |-> 0]
              /\ hist = <<>> /\ last = "init" /\ l = 1 /\ bad = {} /\ nbad = 0 /\ ntr = 0 /\ roots = {}
 TraceNext ==
   /\ l <= Len(Trace)
